@@ -15,7 +15,6 @@
 
 """Provides a dict-like object that handles Gin "selectors"."""
 
-import copy
 import re
 
 # Key used to represent terminal nodes (nodes that correspond to a complete
@@ -56,7 +55,17 @@ class SelectorMap:
   def copy(self):
     # pylint: disable=protected-access
     sm = SelectorMap()
-    sm._selector_tree = copy.deepcopy(self._selector_tree)
+    # The tree is as deep as the longest name has components: copy it without
+    # recursion.
+    pending = [(self._selector_tree, sm._selector_tree)]
+    while pending:
+      source, target = pending.pop()
+      for key, value in source.items():
+        if isinstance(value, dict):
+          target[key] = {}
+          pending.append((value, target[key]))
+        else:
+          target[key] = value
     sm._selector_map = self._selector_map.copy()
     return sm
 
